@@ -86,9 +86,7 @@ REG = {
         dict(name='c13::xmd_m1_d3_l0', tier='quick', t=1800),
         dict(name='c13::xmd_m4_d2_l9', tier='thorough', t=3600),
         dict(name='c13::xmd_m8_d8_l16', tier='thorough', t=5400, mem=24),
-        dict(name='c13::xmd_255_blocks_ok', tier='thorough', t=3600, mem=24),
         dict(name='c13::xmd_256_blocks_abort', tier='quick', t=1800),
-        dict(name='c13::xmd_510_bytes_ok', tier='thorough', t=3600, mem=24),
         dict(name='c13::xmd_511_bytes_abort', tier='quick', t=600),
         dict(name='c13::xmd_dst255', tier='thorough', t=3600, mem=24),
         dict(name='c13::xof_dst255', tier='quick', t=1800),
